@@ -514,7 +514,7 @@ class CFG:
                                     if n in marks else ())
         return IN, OUT
 
-    def guard_facts(self, extra_kill=None):
+    def guard_facts(self, extra_kill=None, extra_gen=None):
         """Standard guard-fact analysis: facts are (text, polarity) keys of
         branch atoms; killed when a name they mention is rebound or (unless
         the fact is an identity/isinstance test) mutated."""
@@ -548,7 +548,7 @@ class CFG:
         def edge_gen(e):
             return [fact_key(x, p) for (x, p) in e.facts]
 
-        return self.must_forward(edge_gen=edge_gen, kill=kill)
+        return self.must_forward(gen=extra_gen, edge_gen=edge_gen, kill=kill)
 
     # ------------------------------------------------------------ queries
     def reachable(self, start, avoid=None, follow_exc=True, forward=True):
@@ -617,3 +617,153 @@ def cfg_of(func):
     if k not in _cfg_cache:
         _cfg_cache[k] = (func, CFG(func))
     return _cfg_cache[k][1]
+
+
+# ---------------------------------------------------------------- paths
+class Path:
+    __slots__ = ('nodes', 'facts', 'end', 'env', 'steps')
+
+    def __init__(self, nodes, facts, end, env, steps=None):
+        self.nodes = nodes  # list of N visited (in order, start inclusive)
+        self.facts = facts  # list of (text, polarity) guard facts, in order
+        self.steps = steps or []  # steps[k] = facts of edge nodes[k]->[k+1]
+        self.end = end  # the node that ended the path (stop node / exit)
+        self.env = env  # constant environment at the end
+
+    def has(self, text, pol=True):
+        return (text, pol) in self.facts
+
+    def index_of(self, node):
+        for i, n in enumerate(self.nodes):
+            if n is node:
+                return i
+        return -1
+
+
+def _const_assign(node):
+    """(name, constant) if the node is ``name = <Constant>``."""
+    a = node.ast
+    if node.kind == 'stmt' and isinstance(a, ast.Assign) and len(
+            a.targets) == 1 and isinstance(a.targets[0], ast.Name) and \
+            isinstance(a.value, ast.Constant):
+        return a.targets[0].id, a.value.value
+    return None
+
+
+def enumerate_paths(cfg, start, stop, follow_exc=False, max_paths=4000,
+                    start_env=None, first_edges=None):
+    """All acyclic paths from ``start`` to a node satisfying ``stop(n)`` (or
+    to an exit node).  Branches whose test is a bare local flag with a known
+    constant value on the path are pruned (``didrepl = True; if didrepl:``).
+    ``first_edges``: restrict the edges taken out of ``start``."""
+    res = []
+    exits = (cfg.exit, cfg.raise_exit)
+
+    def feasible(edge, env):
+        for (x, pol) in edge.facts:
+            if isinstance(x, ast.Name) and x.id in env:
+                if bool(env[x.id]) != pol:
+                    return False
+        return True
+
+    def rec(n, nodes, facts, env, onpath, steps):
+        if len(res) > max_paths:
+            raise AnalysisError(
+                f'more than {max_paths} paths in {cfg.name}')
+        ca = _const_assign(n)
+        if ca:
+            env = dict(env)
+            env[ca[0]] = ca[1]
+        else:
+            bound, _ = stmt_effects(n)
+            if bound & set(env):
+                env = {k: v for k, v in env.items() if k not in bound}
+        edges = n.succ
+        if n is start and first_edges is not None:
+            edges = first_edges
+        for e in edges:
+            if e.kind == 'exc' and not follow_exc:
+                continue
+            if not feasible(e, env):
+                continue
+            ef = [fact_key(x, p) for (x, p) in e.facts]
+            nf = facts + ef
+            d = e.dst
+            if d in exits or stop(d):
+                res.append(Path(nodes + [d], nf, d, env, steps + [ef]))
+                continue
+            if d in onpath:
+                continue  # inner cycle: not followed twice
+            rec(d, nodes + [d], nf, env, onpath | {d}, steps + [ef])
+
+    rec(start, [start], [], dict(start_env or {}), {start}, [])
+    return res
+
+
+def loop_body_paths(cfg, loop_ast, **kw):
+    """Paths of one iteration of ``loop_ast`` (For/While): from the loop
+    head into the body and back to the head, or out of the loop (break /
+    return / raise).  Path.end is the head for a completed iteration."""
+    head = cfg.node_of[id(loop_ast)]
+    first = [e for e in head.succ if e.kind in ('true', 'iter')]
+    body_nodes = set()
+    for st in ast.walk(loop_ast):
+        if id(st) in cfg.node_of and st is not loop_ast:
+            body_nodes.add(cfg.node_of[id(st)])
+    # For-loops nested inside have forinit nodes too
+    for n in cfg.nodes:
+        if n.kind == 'forinit' and n.ast is not loop_ast:
+            for anc in _ancestors(n.ast):
+                if anc is loop_ast:
+                    body_nodes.add(n)
+                    break
+
+    def stop(n):
+        return n is head or n not in body_nodes
+
+    return enumerate_paths(cfg, head, stop, first_edges=first, **kw)
+
+
+def _ancestors(node):
+    n = getattr(node, '_parent', None)
+    while n is not None:
+        yield n
+        n = getattr(n, '_parent', None)
+
+
+def reaching_defs(cfg, params=()):
+    """May-analysis: for each node, var -> frozenset of defining N (or the
+    string 'param').  Only Name bindings."""
+    IN = {n: None for n in cfg.nodes}
+    IN[cfg.entry] = {p: frozenset(['param']) for p in params}
+    work = [cfg.entry]
+    eff = {n: stmt_effects(n)[0] for n in cfg.nodes}
+    while work:
+        n = work.pop()
+        cur = IN[n]
+        out = dict(cur)
+        for v in eff[n]:
+            out[v] = frozenset([n])
+        for e in n.succ:
+            src = cur if e.kind == 'exc' else out
+            if e.kind == 'exc':
+                # the binding may or may not have happened
+                src = dict(cur)
+                for v in eff[n]:
+                    src[v] = src.get(v, frozenset()) | frozenset([n])
+            old = IN[e.dst]
+            if old is None:
+                IN[e.dst] = dict(src)
+                work.append(e.dst)
+            else:
+                changed = False
+                for v, ds in src.items():
+                    if v not in old:
+                        old[v] = ds
+                        changed = True
+                    elif not ds <= old[v]:
+                        old[v] = old[v] | ds
+                        changed = True
+                if changed:
+                    work.append(e.dst)
+    return IN
